@@ -112,6 +112,22 @@ theorem clear_get? (n : Net) (c t x : Nat) :
 @[simp] theorem clear_nextTok (n : Net) (c t : Nat) : (clear n c t).nextTok = n.nextTok := by unfold clear; split <;> rfl
 @[simp] theorem clear_ev (n : Net) (c t : Nat) : (clear n c t).ev = n.ev := by unfold clear; split <;> rfl
 
+/-- a clear that carries the token of an ask its asker has given up finds either no edge or a newer token: the graph
+    (and everything else) is left as it is -/
+theorem clear_stale {n : Net} (h : NInv n) {t : Nat} (hst : (n.asks t).st = .abandoned) :
+    clear n (n.asks t).caller t = n := by
+  unfold clear
+  split
+  · rename_i hc
+    obtain ⟨hsome, htok⟩ := hc
+    cases hg : n.graph.get? (n.asks t).caller with
+    | none => simp [hg] at hsome
+    | some b =>
+      have := (h.edgeAsk _ b hg).2.2
+      rw [htok, hst] at this
+      simp [waiting] at this
+  · rfl
+
 theorem waiting_holding {st : AskSt} (h : waiting st = true) : holding st = true := by
   cases st <;> simp_all [waiting, holding]
 
@@ -413,7 +429,11 @@ theorem NInv_step (n n' : Net) (l : NLabel) (h : NInv n) (hs : step? n l = some 
       cases hs
       simp only [f1, if_true]
       exact NInv_reply n t _ h hst
-    · cases hs; exact NInv_ev h _
+    · rename_i hst
+      cases hs
+      simp only [f1, if_true]
+      rw [clear_stale h hst]
+      exact NInv_ev h _
     · cases hs
   | resume t =>
     simp only [step?, stepWith] at hs
